@@ -237,6 +237,8 @@ class Walker:
                     and isinstance(b.func, ast.Attribute) and b.func.attr == "exists"
                     and _dn(b.func.value) == "self.__output_buffer_file"):
                 cond = "CExists " + self.fileid(b.func.value)
+        elif neg and _dn(t) is not None and self.vars.get(_dn(t)) == "firstrow":
+            cond = "CFirstRowEmpty"            # `not header_list` (normalised form of len(header_list) == 0)
         elif not neg:
             hv = [k for k, v in self.vars.items() if v == "firstrow"]
             ids = [k for k, v in self.vars.items() if v == "ids"]
